@@ -247,36 +247,46 @@ def Op.nonPush : Op → Bool
 
 def countNP (ops : List Op) : Nat := (ops.filter Op.nonPush).length
 
-/-- the keys of every OP_CHECKMULTISIG of the script (the count pushed just before it): what an
-    execution of ALL of them adds to the op count (an upper bound when one sits in a branch not
-    taken). -/
-def msKeys : List Op → Nat
-  | .pushnum n :: .checkmultisig :: rest => n + msKeys rest
-  | .pushnum n :: .checkmultisigverify :: rest => n + msKeys rest
-  | _ :: rest => msKeys rest
-  | [] => 0
-
-/-- the limits the interpreter puts around an execution, which `exec` itself does not carry: 201
-    counted op codes and 10 000 bytes of script (P2WSH; the count is exact for scripts without
-    OP_CHECKMULTISIG, whose keys are counted on top), 520 bytes per initial stack element, 1000
-    initial elements.  NOT modelled: the 1000-element bound on the stack DURING execution. -/
 def Op.isCms : Op → Bool
   | .checkmultisig | .checkmultisigverify => true
   | _ => false
 
 def hasCms (ops : List Op) : Bool := ops.any Op.isCms
 
-def withinEngineLimits (ctx : Ctx) (ops : List Op) (w : List Bytes) : Bool :=
+/-- the keys an OP_CHECKMULTISIG about to run charges to the op count: the number on top of the
+    stack (0 when it is no number: the op code fails anyway). -/
+def cmsKeys (s : St) : Nat :=
+  match s.stack with
+  | nk :: _ => match numVal nk with
+    | some n => n.toNat
+    | none => 0
+  | [] => 0
+
+/-- what the EXECUTED OP_CHECKMULTISIGs of a run add to the op count (Core's and btclib's
+    accounting: one per op code above OP_16 met, executed or not, plus the keys of every
+    OP_CHECKMULTISIG that is executed). -/
+def execCharge (E : EvalEnv) : List Op → St → Nat
+  | [], _ => 0
+  | o :: os, s =>
+    (if executing s.conds && o.isCms then cmsKeys s else 0) +
+      match step E o s with
+      | some s' => execCharge E os s'
+      | none => 0
+
+/-- the limits the interpreter puts around an execution, which `exec` itself does not carry: 201
+    counted op codes (`charge`: the keys of the executed OP_CHECKMULTISIGs) and 10 000 bytes of
+    script (P2WSH), 520 bytes per initial stack element, 1000 initial elements.  NOT modelled: the
+    1000-element bound on the stack DURING execution. -/
+def withinEngineLimits (ctx : Ctx) (ops : List Op) (w : List Bytes) (charge : Nat) : Bool :=
   (ctx == .tapscript ||
-    (decide (countNP ops + (if hasCms ops then msKeys ops else 0) ≤ MAX_OPS_PER_SCRIPT) &&
-      decide ((ser ops).length ≤ 10000))) &&
+    (decide (countNP ops + charge ≤ MAX_OPS_PER_SCRIPT) && decide ((ser ops).length ≤ 10000))) &&
   w.all (fun e => decide (e.length ≤ 520)) && decide (w.length ≤ MAX_STACK_SIZE)
 
 /-- the verdict on a witness program: within the limits, the script runs to its end with every
     conditional closed, the altstack forgotten, and exactly one element left, which is true
     (CLEANSTACK is consensus for witness programs). `w` is the initial stack, top first. -/
 def accepts (E : EvalEnv) (ctx : Ctx) (ops : List Op) (w : List Bytes) : Bool :=
-  withinEngineLimits ctx ops w &&
+  withinEngineLimits ctx ops w (execCharge E ops ⟨w, [], []⟩) &&
   match exec E ops ⟨w, [], []⟩ with
   | some ⟨[v], _, []⟩ => castToBool v
   | _ => false
